@@ -1430,8 +1430,8 @@ func c09R11(c *Ctx) {
 	dnskeyF := c.field(R, pkg+".TrustAnchor.DNSKey")
 	rootKeysF := c.field(R, pkg+".Resolver.rootKeys")
 	auto := c.fn(R, pkg+".(*Resolver).AutoTA")
-	stage := c.fn(R, pkg+".stageRevocationSelfSignatures")
 	selfSigned := c.fobj(R, pkg+".revocationIsSelfSignedWithWork")
+	stage, _ := c09StagingFn(c, R, auto, selfSigned) // the function AutoTA stages with, whatever its name
 	stT := c.P.TypeName(pkg + ".State")
 	if stateF == nil || dnskeyF == nil || rootKeysF == nil || auto == nil || stage == nil || selfSigned == nil || stT == nil {
 		return
